@@ -256,14 +256,31 @@ def run(ctx):
                 elif prod is None:
                     prod = pr
             # is this write dominated by the failure edge of a read / parse / execute result?
-            dominated = None
-            for e, f in fail_edges:
-                src = _root_producer(du, f[1])
-                is_reader = src in F.fns and src not in R.connection_fns and any(
-                    x in R.transport_helpers and any(is_transport_io(tt, "std::io::Read::read") for _, tt in F.fns[x].calls())
-                    for x in G.reachable([src], kinds=("call", "trait-cha")) if x in F.fns) if src else False
-                if src and (is_reader or any(x in src for x in ("std::io::Read::read", "request::Request::parse", "application::Application::execute"))) and cfg.edge_dominates(e, wb):
-                    dominated = src
+            def failure_dominating(block):
+                dominated = None
+                for e, f in fail_edges:
+                    src = _root_producer(du, f[1])
+                    is_reader = src in F.fns and src not in R.connection_fns and any(
+                        x in R.transport_helpers and any(is_transport_io(tt, "std::io::Read::read") for _, tt in F.fns[x].calls())
+                        for x in G.reachable([src], kinds=("call", "trait-cha")) if x in F.fns) if src else False
+                    if src and (is_reader or any(x in src for x in ("std::io::Read::read", "request::Request::parse", "application::Application::execute"))) and cfg.edge_dominates(e, block):
+                        dominated = src
+                return dominated
+            dominated = failure_dominating(wb)
+            if prod is None and not dominated:
+                # one write after the arms have merged (`let raw = match parsed { Err(..) => bad_request(..), Ok(..) => generate(..) }; send(raw)`):
+                # each definition of the bytes is judged where it is made
+                multi = [x for a_ in cands for x in _producers_by_def(du, du.val_operand(a_))]
+                if multi and all(pr is not None for pr, _ in multi):
+                    verdicts = []
+                    for pr, db in multi:
+                        dom_i = failure_dominating(db)
+                        ok_i = pr == (ctor400 if dom_i else "response::Response::generate_response") \
+                            or (not dom_i and pr == ctor400 and any(cfg.edge_dominates(e, db) for e, f in fail_edges))
+                        verdicts.append(ok_i)
+                        re_.instance({"fn": name, "write_at_line": t["span"]["line"], "bytes_from": pr, "defined_in_block": db, "on_failure_of": dom_i}, ok_i)
+                    if all(verdicts) and any(pr == "response::Response::generate_response" for pr, _ in multi):
+                        continue
             want = ctor400 if dominated else "response::Response::generate_response"
             ok = prod == want
             if not ok and not dominated and prod == ctor400 and any(cfg.edge_dominates(e, wb) for e, f in fail_edges):
@@ -307,6 +324,39 @@ def _producer(du, v, depth=0):
         if vv != v:
             return _producer(du, vv, depth + 1)
     return None
+
+
+def _producers_by_def(du, v, depth=0):
+    """[(producer, defining block)] for a buffer that has several definitions (one per arm of a match that merged before the write)"""
+    if depth > 8:
+        return []
+    if v[0] == "call":
+        from ..dataflow import is_view_call
+        if (is_view_call(v[1]) or (v[1] and "borrow" in v[1])) and v[2]:
+            return _producers_by_def(du, v[2][0], depth + 1)
+        return [(v[1], v[3])]
+    if v[0] in ("ref", "place"):
+        base = v[1]
+        while base[1] and base[1][-1] == "*":
+            base = (base[0], base[1][:-1])
+        if base[1]:
+            return []
+        vv = du.val_place(base)
+        if vv[0] == "call":
+            return _producers_by_def(du, vv, depth + 1)
+        out = []
+        for d in du.defs.get(base[0], []):
+            if d[0] == "call":
+                out.append((callee_name(d[3]) or d[3].get("callee"), d[1]))
+            elif d[0] == "assign" and d[3]["k"] == "use" and d[3]["ops"][0].get("k") in ("copy", "move") and not d[3]["ops"][0]["p"]:
+                sub = _producers_by_def(du, ("place", (d[3]["ops"][0]["l"], ())), depth + 1)
+                if not sub:
+                    return []
+                out.extend(sub)
+            else:
+                return []
+        return out
+    return []
 
 
 def _root_producer(du, place):
